@@ -118,6 +118,9 @@ class World:
             self.obs += ["%s:%d" % (LISTEN_IP, l.port + 1), "127.0.0.9:%d" % l.port, "127.0.3.2:%d" % l.port]
         self.obs.append("%s:5060" % LISTEN_IP)      # (listeners are doubles: nothing of the proxy is bound there)
         self.obs += ["%s:%d" % (LISTEN_IP, l.port) for l in self.listeners]
+        # (the sibling transport of a listener entry sits on port+1; its own near misses are port+2)
+        for l in self.listeners:
+            self.obs += ["%s:%d" % (LISTEN_IP, l.port + 2), "127.0.0.9:%d" % (l.port + 1), "127.0.3.2:%d" % (l.port + 1)]
         self.obs += ["127.0.2.%d:5060" % i for i in (1, 2, 3)]
         self.obs = sorted(set(self.obs))
         self.learned = {}        # host -> Listener (generator's own bookkeeping of the property's "learned")
@@ -379,6 +382,11 @@ def gen_request_case(g, tier, focus=None, c17=None):
         occ += 1
         pi = g.rint(0, len(w.listeners) - 1)
         lst = w.listeners[pi]
+        if g.chance(0.3):
+            # the message arrives over the OTHER transport of the same listener entry (its TCP port next to its UDP port, or
+            # the other way round): one Proxy serves both, and "the receiving listener" is the transport that received it
+            lst = Listener("TCP" if lst.proto == "UDP" else "UDP", lst.addr, lst.port + 1, lst.rcvd)
+            g.count("req_over_sibling_transport")
         peer_ip = g.pick(["127.0.2.1", "127.0.2.2", "127.0.2.3"])
         peer_port = g.pick([w.port_ua, 5060, g.rint(1024, 65000)])
         method = g.pick(["INVITE", "OPTIONS", "MESSAGE", "REGISTER", "SUBSCRIBE", "X-CUSTOM", "INFO"])
